@@ -45,8 +45,11 @@ def main():
             sh(f"cd {VERIF} && git checkout -- evidence lean/Ahbicht/Generated 2>/dev/null")
         out[d.name] = row
         print(d.name, row, flush=True)
+    import os
+    seed = os.environ.get("VERIF_SEED", "0")
     if not only:
-        json.dump({"tier": tier, "results": out}, open(VERIF / "seeded" / "RECHECK.json", "w"), indent=1)
+        name = "RECHECK.json" if seed == "0" else f"RECHECK-seed{seed}.json"
+        json.dump({"tier": tier, "seed": seed, "results": out}, open(VERIF / "seeded" / name, "w"), indent=1)
     missed = [k for k, v in out.items() if not v.get("detected")]
     print("missed:", missed)
 
